@@ -5,8 +5,8 @@
      tag   in {nowiki, pre, math, source, syntaxhighlight, timeline}
      body  a sequence of lexemes (atoms of WikiTokens.tla) that contains neither the tag's own
            closer nor the reserved byte 0x7f (atoms DEL, UNIQ)
-     ctx   where the tag sits: top level, list item, table cell, bold text, template argument,
-           inside a template body
+     ctx   where the tag sits: top level, list item, table cell, table caption, bold text, template
+           argument, inside a template body, argument of a parser function (lc, uc, urlencode, ...)
 
    Denotation (what the tree must show, whatever the body is):
      Kind(tag)            the node the tag yields
@@ -29,6 +29,7 @@ CONSTANTS BodyAlphabet,   \* "opaque" | "structural"
           MaxBody,        \* bodies of 0..MaxBody lexemes (tags spelled in lower case)
           SpellBody,      \* bodies of 0..SpellBody lexemes for the other spellings of the tags
           PairBody,       \* bodies of 0..PairBody lexemes for documents with a second region
+          PfBody,         \* bodies of 0..PfBody lexemes inside a parser-function argument
           EmitFrom        \* print cases with Len(body) >= EmitFrom
 
 WT == INSTANCE WikiTokens WITH Alphabet <- "structural", MaxLen <- 0, MaxNest <- 40, EmitFrom <- 1,
@@ -39,7 +40,11 @@ Tags     == {"nowiki", "pre", "math", "source", "syntaxhighlight", "timeline"}
 \* attributes, both may carry blanks before ">"); concretised by the harness per tag
 OpenSpellings  == {"lower", "UPPER", "Mixed", "blank", "attr", "UPPERattr"}
 CloseSpellings == {"lower", "UPPER", "Mixed", "blank"}
-Contexts == {"top", "listitem", "tablecell", "bold", "tplarg", "tplbody"}
+\* where the region sits.  PfContexts: as the argument of a magic word / parser function that
+\* transforms or passes on its argument (MediaWiki skips strip markers there: the body is verbatim)
+PfContexts == {"pf-lc", "pf-uc", "pf-lcfirst", "pf-ucfirst", "pf-urlencode", "pf-anchorencode", "pf-padleft",
+               "pf-padright", "pf-formatnum", "pf-tag", "pf-if"}
+Contexts == {"top", "listitem", "tablecell", "caption", "bold", "tplarg", "tplbody"} \cup PfContexts
 
 \* the reduced body alphabet of the quick tier: one lexeme per kind of markup a body could be
 \* mistaken for, every opener / closer of the opaque tags themselves, the include tags of the
@@ -134,12 +139,14 @@ Second(t, b, p) == IF p = "none" THEN [tag |-> "-", body |-> <<>>, kind |-> "-",
 VARIABLES tag, ctx, ospell, cspell, pair, where, body
 ovars == <<tag, ctx, ospell, cspell, pair, where, body>>
 
-Bound == IF pair # "none" THEN PairBody
+Bound == IF ctx \in PfContexts THEN PfBody
+         ELSE IF pair # "none" THEN PairBody
          ELSE IF ospell = "lower" /\ cspell = "lower" THEN MaxBody ELSE SpellBody
 Init == /\ tag \in Tags /\ ctx \in Contexts /\ ospell \in OpenSpellings /\ cspell \in CloseSpellings
         /\ pair \in PairKinds /\ where \in Wheres
         /\ (pair # "none") => (ospell = "lower" /\ cspell = "lower")
         /\ (pair = "none") => where = "after"
+        /\ (ctx \in PfContexts) => (pair = "none" /\ ospell = "lower" /\ cspell = "lower")
         /\ body = <<>>
         /\ PairOK(tag, body, pair)
 Extend == /\ Len(body) < Bound
